@@ -103,7 +103,9 @@ func getWorld() *world {
 		})
 		mux.HandleFunc("/.well-known/openid-configuration", func(rw http.ResponseWriter, _ *http.Request) {
 			rw.Header().Set("Content-Type", "application/json")
-			_ = json.NewEncoder(rw).Encode(map[string]string{"issuer": w.srv.URL, "jwks_uri": w.srv.URL + "/jwks"})
+			// the discovery document advertises an issuer that is NOT configured (the one "other" tokens carry): only the
+			// configured issuer and aliases may be accepted, whatever the provider says about itself (seeded change C27c-1)
+			_ = json.NewEncoder(rw).Encode(map[string]string{"issuer": "https://evil.example/", "jwks_uri": w.srv.URL + "/jwks"})
 		})
 		w.srv = httptest.NewServer(mux)
 		mk := func(aliases, subjects, cidClaims []string) *oidc.RemoteOidcAuthenticator {
